@@ -353,17 +353,29 @@ pub fn long_budget(n: usize, selfloops: bool) -> u64 {
 
 /// one long search; the expected models follow from the construction named in `name`
 pub fn long_case(text: &str, n: usize, name: &str, h: usize, budget: u64, modes: &[bool], st: &mut St) -> Vec<(String, String)> {
+    let m: Vec<u8> = modes.iter().map(|t| *t as u8).collect();
+    long_case_m(text, n, name, h, budget, &m, st)
+}
+
+/// modes: 0 = stable_nogood_channel, 1 = two_val_nogood_channel, 2 = stable_nogood (the iterator interface, which runs
+/// the whole search before it hands out the first model)
+pub fn long_case_m(text: &str, n: usize, name: &str, h: usize, budget: u64, modes: &[u8], st: &mut St) -> Vec<(String, String)> {
     let mut out = vec![];
     let parser = AdfParser::default();
     if parser.parse()(text).is_err() {
         return vec![("parse".into(), "well-formed input rejected".into())];
     }
     let (heu, hname) = builtin(h);
-    for twoval in modes.iter().copied() {
-        let label = format!("long.{}({})", if twoval { "two_val_nogood_channel" } else { "stable_nogood_channel" }, hname);
+    for mode in modes.iter().copied() {
+        let twoval = mode == 1;
+        let label = format!("long.{}({})", ["stable_nogood_channel", "two_val_nogood_channel", "stable_nogood"][mode as usize % 3], hname);
         adf_bdd::verif::set_budget(Some(budget));
         let res = guard(|| {
             let mut adf = Adf::from_parser(&parser);
+            if mode == 2 {
+                let items: Vec<Vec<Term>> = adf.stable_nogood(heu).collect();
+                return (items, true);
+            }
             let (s, r) = crossbeam_channel::unbounded();
             if twoval {
                 adf.two_val_nogood_channel(heu, s);
@@ -390,7 +402,10 @@ pub fn long_case(text: &str, n: usize, name: &str, h: usize, budget: u64, modes:
                 if set.len() != got.len() {
                     out.push((format!("{}:duplicate", label), format!("{} models delivered, {} distinct", got.len(), set.len())));
                 }
-                let ok = if name.contains("self-supporting") {
+                let ok = if name.contains("negation pairs") {
+                    // k pairs a_i = neg(b_i), b_i = neg(a_i): the 2^k interpretations with a_i != b_i, all stable
+                    set.len() == 1usize << (n / 2) && set.iter().all(|m| m.len() == n && (0..n / 2).all(|i| m[2 * i] != U && m[2 * i + 1] != U && m[2 * i] != m[2 * i + 1]))
+                } else if name.contains("self-supporting") {
                     if twoval {
                         set.len() == 1usize << n && set.iter().all(|m| m.len() == n && m.iter().all(|x| *x != U))
                     } else {
@@ -404,7 +419,7 @@ pub fn long_case(text: &str, n: usize, name: &str, h: usize, budget: u64, modes:
                     set == [a, b].into_iter().collect::<BTreeSet<_>>()
                 };
                 if !ok {
-                    out.push((format!("{}:wrong-models", label), format!("{} distinct models delivered; the construction has {}", set.len(), if name.contains("self-supporting") { if twoval { format!("all 2^{} interpretations as two-valued models", n) } else { "exactly the all-false stable model".to_string() } } else if n % 2 == 1 { "no model".to_string() } else { "exactly the two alternating models".to_string() })));
+                    out.push((format!("{}:wrong-models", label), format!("{} distinct models delivered; the construction has {}", set.len(), if name.contains("negation pairs") { format!("2^{} models (one of each pair true)", n / 2) } else if name.contains("self-supporting") { if twoval { format!("all 2^{} interpretations as two-valued models", n) } else { "exactly the all-false stable model".to_string() } } else if n % 2 == 1 { "no model".to_string() } else { "exactly the two alternating models".to_string() })));
                 }
             }
         }
@@ -471,6 +486,25 @@ pub fn run_c05(run: &Run) {
                 cases.push(("11 self-supporting statements".into(), 11, true, h, vec![true, false]));
             }
             cases.push(("12 self-supporting statements".into(), 12, true, 0, vec![true]));
+        }
+        // many stable models (more than 256 and more than 1024 would not fit a small buffer): 9 negation pairs have 512,
+        // through both channel variants and through the iterator interface
+        {
+            let pairs = if quick { vec![9usize] } else { vec![9, 11] };
+            for k in pairs {
+                let name = format!("{} negation pairs", k);
+                let nm = name.clone();
+                let handle = std::thread::spawn(move || {
+                    let n = 2 * k;
+                    let labels: Vec<String> = (0..n).map(|i| format!("p{}", i)).collect();
+                    let conds: Vec<Fm> = (0..n).map(|i| Fm::not(Fm::Atom(i ^ 1))).collect();
+                    let l = crate::large::LargeAdf { labels: labels.clone(), written: labels, conds, shape: "long" };
+                    let mut st = St::default();
+                    let found = long_case_m(&l.text(None, ("", "", "")), n, &nm, 0, 400 * (1u64 << k), &[2, 0, 1], &mut st);
+                    (found, st.max_steps)
+                });
+                long_jobs.push((name, 2 * k, 0, vec![false, true, false], handle));
+            }
         }
         for (name, n, selfloops, h, modes) in cases {
             let (nm, md) = (name.clone(), modes.clone());
@@ -693,6 +727,15 @@ pub fn run_c05(run: &Run) {
         let mut long_steps: Vec<(String, u64)> = vec![];
         for (name, _n, h, modes, handle) in long_jobs {
             runs += modes.len() as u64;
+            // a search that blocks for good (no loop step is counted any more) must not block the check: after the
+            // rest of the check has finished every long search gets 60 more seconds
+            while !handle.is_finished() && t0.elapsed().as_secs() < 60 {
+                std::thread::sleep(std::time::Duration::from_millis(50));
+            }
+            if !handle.is_finished() {
+                run.violation("long:hang", format!("the search on {} has not returned {} s after everything else had finished (no loop step budget was exhausted: it is blocked)", name, t0.elapsed().as_secs()), json!({"type": "long", "name": name, "heuristic": h, "modes": modes}));
+                continue;
+            }
             match handle.join() {
                 Ok((found, steps)) => {
                     long_steps.push((name.clone(), steps));
@@ -728,6 +771,27 @@ pub fn replay(c: &Value) -> Vec<(String, String)> {
     if c["type"] == "long" {
         let name = c["name"].as_str().unwrap_or("").to_string();
         let n: usize = name.split(|ch: char| !ch.is_ascii_digit()).filter(|x| !x.is_empty()).next().and_then(|x| x.parse().ok()).unwrap_or(11);
+        if name.contains("negation pairs") {
+            // on its own thread with a deadline: the stored case may be a search that blocks for good
+            let k = n;
+            let nm = name.clone();
+            let handle = std::thread::spawn(move || {
+                let n = 2 * k;
+                let labels: Vec<String> = (0..n).map(|i| format!("p{}", i)).collect();
+                let conds: Vec<Fm> = (0..n).map(|i| Fm::not(Fm::Atom(i ^ 1))).collect();
+                let l = crate::large::LargeAdf { labels: labels.clone(), written: labels, conds, shape: "long" };
+                let mut st = St::default();
+                long_case_m(&l.text(None, ("", "", "")), n, &nm, 0, 400 * (1u64 << k), &[2, 0, 1], &mut st)
+            });
+            let t0 = std::time::Instant::now();
+            while !handle.is_finished() && t0.elapsed().as_secs() < 60 {
+                std::thread::sleep(std::time::Duration::from_millis(50));
+            }
+            if !handle.is_finished() {
+                return vec![("long:hang".into(), format!("the search on {} has not returned after 60 s", name))];
+            }
+            return handle.join().unwrap_or_else(|_| vec![("long:panic".into(), "the search thread died".into())]);
+        }
         let (labels, conds): (Vec<String>, Vec<Fm>) = if name.contains("self-supporting") {
             ((0..n).map(|i| format!("q{}", i)).collect(), (0..n).map(Fm::Atom).collect())
         } else {
